@@ -3,7 +3,9 @@
 package c07
 
 import (
+	"bytes"
 	"fmt"
+	"io"
 	"regexp"
 	"sort"
 	"strings"
@@ -170,9 +172,43 @@ func census(m map[string]int) string {
 	return sb.String()
 }
 
+// parseIncrementally uses the streaming entry point the way an incremental
+// consumer does: every block is rewritten as soon as it is delivered (with the
+// references seen so far), all blocks are kept, and rendering happens after the
+// whole input has been read.
+func parseIncrementally(in []byte) ([]*cm.RootBlock, cm.ReferenceMap, error) {
+	p := cm.NewBlockParser(bytes.NewReader(in))
+	refs := make(cm.ReferenceMap)
+	var blocks []*cm.RootBlock
+	for {
+		b, err := p.NextBlock()
+		if err == io.EOF {
+			return blocks, refs, nil
+		}
+		if err != nil {
+			return nil, nil, err
+		}
+		refs.Extract(b.Source, b.AsNode())
+		(&cm.InlineParser{ReferenceMatcher: refs}).Rewrite(b)
+		blocks = append(blocks, b)
+	}
+}
+
 func prop(c harness.Case) harness.Result {
-	blocks, refs := cm.Parse(append([]byte(nil), c.In...))
 	var res harness.Result
+	var blocks []*cm.RootBlock
+	var refs cm.ReferenceMap
+	if c.I["entry"] == 1 {
+		var err error
+		blocks, refs, err = parseIncrementally(append([]byte(nil), c.In...))
+		if err != nil {
+			res.Err = fmt.Errorf("streaming parse: %v", err)
+			return res
+		}
+		res.Labels = append(res.Labels, "streamed_rewritten_incrementally")
+	} else {
+		blocks, refs = cm.Parse(append([]byte(nil), c.In...))
+	}
 	hasRaw := false
 	for _, b := range blocks {
 		s := tree.Summarize(b)
@@ -219,11 +255,22 @@ func prop(c harness.Case) harness.Result {
 	return res
 }
 
-const rule = "G1/G2/G3 inputs and sink templates (hostile payload placed where text reaches an attribute or element: text, code, info string, destinations, titles, image descriptions, autolinks, list starts) x IgnoreRaw=true with 3 soft-break behaviours, plus IgnoreRaw=false when the tree has no raw-HTML node; oracle = strict output grammar (O2), fixed element/attribute vocabulary, nesting, well-formed character references against the WHATWG name table, start-tag census equal to the one the tree predicts, agreement with x/net/html's tokenizer; non-trivial = input contains one of < > & \" ' and the output contains markup or escapes"
+const rule = "(three cases in four through Parse, one through the streaming parser with incremental rewriting) G1/G2/G3 inputs and sink templates (hostile payload placed where text reaches an attribute or element: text, code, info string, destinations, titles, image descriptions, autolinks, list starts) x IgnoreRaw=true with 3 soft-break behaviours, plus IgnoreRaw=false when the tree has no raw-HTML node; oracle = strict output grammar (O2), fixed element/attribute vocabulary, nesting, well-formed character references against the WHATWG name table, start-tag census equal to the one the tree predicts, agreement with x/net/html's tokenizer; non-trivial = input contains one of < > & \" ' and the output contains markup or escapes"
 
 func plan() harness.Plan {
 		return harness.Plan{Prop: "C07", Suppress: findings.Suppressor("C07"), Checks: []harness.Check{
-		{Name: "safe_output", Quick: 50000, Thorough: 700000, Gen: func(t *rapid.T) harness.Case { return harness.Case{In: gen.DocOrSink().Draw(t, "in")} }, Prop: prop, Rule: rule},
+		{Name: "safe_output", Quick: 50000, Thorough: 700000, Gen: func(t *rapid.T) harness.Case {
+			c := harness.Case{In: gen.DocOrSink().Draw(t, "in")}
+			if rapid.IntRange(0, 3).Draw(t, "entry") == 0 {
+				c.SetI("entry", 1)
+			}
+			return c
+		}, Prop: prop, Rule: rule},
+		{Name: "streamed_long", Quick: 60, Thorough: 800, Gen: func(t *rapid.T) harness.Case {
+			c := harness.Case{In: gen.LongDoc(20000, 80000).Draw(t, "in")}
+			c.SetI("entry", 1)
+			return c
+		}, Prop: prop, Rule: "documents of 20-80 KB with hundreds of root blocks, parsed through NewBlockParser with every block rewritten as soon as it is delivered and rendered after the whole input was read: " + rule},
 		{Name: "sinks", Quick: 50000, Thorough: 700000, Gen: func(t *rapid.T) harness.Case { return harness.Case{In: gen.Sink().Draw(t, "in")} }, Prop: prop, Rule: "sink templates only: " + rule},
 	}}
 }
